@@ -14,6 +14,7 @@ import (
 	"strconv"
 
 	ct "github.com/google/certificate-transparency-go"
+	"github.com/google/certificate-transparency-go/tls"
 	"github.com/google/certificate-transparency-go/trillian/ctfe"
 	"github.com/google/trillian"
 	"github.com/google/trillian/types"
@@ -64,6 +65,21 @@ func main() {
 		x := make([]byte, r.Intn(5))
 		r.Read(v)
 		r.Read(x)
+		// the handler passes stored bytes through whatever they are: arbitrary bytes, a well-formed
+		// MerkleTreeLeaf, and a well-formed MerkleTreeLeaf followed by further bytes
+		if k := i % 4; k == 1 || k == 2 {
+			c := make([]byte, 1+r.Intn(5))
+			r.Read(c)
+			lf, err := tls.Marshal(ct.MerkleTreeLeaf{Version: ct.V1, LeafType: ct.TimestampedEntryLeafType,
+				TimestampedEntry: &ct.TimestampedEntry{Timestamp: r.Uint64(), EntryType: ct.X509LogEntryType, X509Entry: &ct.ASN1Cert{Data: c}}})
+			if err != nil {
+				panic(err)
+			}
+			if k == 2 {
+				lf = append(lf, v...)
+			}
+			v = lf
+		}
 		store = append(store, leafT{int64(i), v, x})
 	}
 
